@@ -154,13 +154,18 @@ def large_case(n_strings, edition=4, compressed=False):
     from refbufr import frame
     meta = frame.default_meta(edition)
     meta.update({'master_table_version': 33, 'n_subsets': 2 if compressed else 1, 'is_compressed': compressed})
+    # compressed character columns give their increment width in a 6-bit octet count: at most 63 octets per value
+    width = 60 if compressed else 255
+    if compressed:
+        n_strings = n_strings * 4
     vals = []
     for k in range(n_strings):
         txt = (b'%06d ' % k) + (b'BUFR' if k % 97 == 3 else b'7777' if k % 89 == 5 else b'data')
-        vals.append((txt * 24)[:255])
+        vals.append((txt * 24)[:width])
+    ids = [101000, 31002, 205000 + width]
     if compressed:
-        return gmsg.case_from_raws(meta, [101000, 31002, 205255], columns=[[n_strings, n_strings]] + [[v, v[::-1]] for v in vals])
-    return gmsg.case_from_raws(meta, [101000, 31002, 205255], subsets=[[n_strings] + vals])
+        return gmsg.case_from_raws(meta, ids, columns=[[n_strings, n_strings]] + [[v, v[::-1]] for v in vals])
+    return gmsg.case_from_raws(meta, ids, subsets=[[n_strings] + vals])
 
 
 def exact_length_case(total, edition=4):
